@@ -178,6 +178,30 @@ def gen_block(rng, resname, letter, thorough):
             meta["version"] = str(rng.randint(2, 99))
         used.add(key)
         add(section, atoms, params, meta)
+    # small rings / permuted atoms: DISTINCT interactions on the same atom set with identical parameters and metas
+    # (the three angles of a three-membered ring, the ring dihedrals of a four-membered ring, impropers around one
+    # centre listed in different orders); drawn from a derived stream so that the other choices stay what they were
+    import random as _random
+    extra = _random.Random("c11-ring|%s|%r" % (resname, rng.getstate()[1][:4]))
+    if natoms >= 3 and extra.random() < 0.35:
+        a, b, c = extra.sample(names, 3)
+        params = ["2", extra.choice(["60", "60.0", "120"]), extra.choice(NUMBERS)]
+        meta = gen_meta(extra)
+        for atoms in ([a, b, c], [b, c, a], [c, a, b]):
+            if ("angles", tuple(atoms)) not in used and ("angles", tuple(atoms[::-1])) not in used:
+                used.add(("angles", tuple(atoms)))
+                add("angles", atoms, params, dict(meta))
+    if natoms >= 4 and extra.random() < 0.35:
+        a, b, c, d = extra.sample(names, 4)
+        section = extra.choice(["dihedrals", "dihedrals", "impropers"])
+        params = [extra.choice(["1", "2", "9"]), extra.choice(NUMBERS), extra.choice(NUMBERS)] + \
+                 (["3"] if section == "dihedrals" else [])
+        meta = gen_meta(extra)
+        orders = ([a, b, c, d], [b, c, d, a], [c, d, a, b]) if section == "dihedrals" else ([a, b, c, d], [a, c, b, d], [a, d, c, b])
+        for atoms in orders:
+            if (section, tuple(atoms)) not in used and (section, tuple(atoms[::-1])) not in used:
+                used.add((section, tuple(atoms)))
+                add(section, atoms, params, dict(meta))
     for section, items in sections.items():
         lines.append("[ %s ]" % section)
         lines += items
@@ -286,6 +310,34 @@ def gen_case(rng, index, thorough):
         nodes = [{"id": i, "resname": rng.choice(resnames), "resid": i + first} for i in range(nres)]
         edges = [{"source": rng.randrange(i), "target": i} for i in range(1, nres)]
         spec["seq_json"] = {"directed": False, "multigraph": False, "graph": {}, "nodes": nodes, "edges": edges}
+    if "seq_json" in spec:
+        graph = spec["seq_json"]
+        # node keys of the requested graph: 0..n-1, from 1, 10/20/30 ..., and the node list in another order than
+        # the keys (permuted insertion order); now and then one ring-closing edge (cyclic residue graph)
+        relabel = extra.choice(["same", "same", "from1", "tens", "reversed"])
+        n = len(graph["nodes"])
+        new_id = {"same": lambda i: i, "from1": lambda i: i + 1, "tens": lambda i: 10 * (i + 1),
+                  "reversed": lambda i: n - 1 - i}[relabel]
+        for node in graph["nodes"]:
+            node["id"] = new_id(node["id"])
+        for edge in graph["edges"]:
+            edge["source"], edge["target"] = new_id(edge["source"]), new_id(edge["target"])
+        if extra.random() < 0.3:
+            extra.shuffle(graph["nodes"])
+        if n >= 3 and extra.random() < 0.2:
+            ids = sorted(node["id"] for node in graph["nodes"])
+            have = {frozenset((e["source"], e["target"])) for e in graph["edges"]}
+            for _ in range(4):
+                u, v = extra.sample(ids, 2)
+                if frozenset((u, v)) not in have:
+                    graph["edges"].append({"source": u, "target": v})
+                    break
+    elif extra.random() < 0.08:
+        # sizes at the boundaries of the column widths of the written file: 9/10/11 and 99/100/101 atoms
+        res = resnames[0]
+        natoms = len(blocks[res])
+        target = extra.choice([9, 10, 11, 99, 100, 101, 21])
+        spec["seq"] = ["%s:%d" % (res, max(1, -(-target // natoms)))]
     return io_variation(rng, spec)
 
 
@@ -478,8 +530,11 @@ def run_case(spec):
         for via in ("top", "itp", "flat"):
             got = res.get(via)
             if got and got["ok"]:
-                if model_writable(mol):
-                    ask("same_" + via, dict(op="same", mol=norm_mol(mol), block=norm_block(got["block"])))
+                built = cap.get("built") if model_writable(cap.get("built")) else mol
+                if model_writable(built):
+                    # the oracle compares with the molecule that was BUILT (captured when the missing links are
+                    # reported), not with what the output stage handed to the writer
+                    ask("same_" + via, dict(op="same", mol=norm_mol(built), block=norm_block(got["block"])))
                 req_graph = cap.get("requested")
                 if req_graph is not None:
                     nodes = [[n[1], n[2]] for n in req_graph["nodes"]]
@@ -617,6 +672,8 @@ def judge(ctx, case, answers):
              guarded=("0" if guarded == 0 else ">=1"), missing_links=(None if "missing" not in cap else len(cap["missing"]) > 0))
     for name in sections_hit:
         ctx.tally(section=name)
+    if spec.get("repeat"):
+        ctx.tally(second_call_in_process=True)
     ctx.tally(out_name=spec.get("out_name") or "out.itp", out_path=("relative" if spec.get("out_rel") else "absolute"),
               top_reached=spec.get("read_mode") or "plain")
     if spec["kind"] == "generated":
@@ -715,6 +772,92 @@ def malformed_stream(ctx, texts):
         mod_t = canon_block(model_t["block"]) if model_t["ok"] else None
         ctx.correspond("reader-text-malformed", impl, mod_t, dict(kind="malformed", mutation=kind, text=mutated))
         ctx.tally(malformed=kind, malformed_accepted=impl is not None)
+
+
+# ------------------------------------------------------------------------------------------------ several written files in one system
+
+def nested_include_stream(ctx, cases):
+    """SEVERAL files gen_params wrote, read back through ONE .top: every molecule lives in its own directory under
+    gen_params' default file name (`<dir>/polymer.itp`) and is pulled in by a small per-molecule file that says
+    `#include "polymer.itp"` (same written name, different directories, resolved relative to the including file);
+    variants: the files included directly from the .top by their paths, `./` and `../` in the written names.  Oracle:
+    the reader accepts the system and every molecule comes back as it does when its file is read alone."""
+    import random as _random
+    import shutil
+    import tempfile
+    from polyply.src.topology import Topology
+    rng = _random.Random("c11-nested|%r" % (ctx.rng.getstate()[1][:4],))
+    usable = [c for c in cases if c["res"].get("written") and (c["res"].get("top") or {}).get("ok")
+              and c["res"]["captured"].get("moltype")]
+    by_name = {}
+    for case in usable:
+        by_name.setdefault(case["res"]["captured"]["moltype"], []).append(case)
+    names = sorted(by_name)
+    if len(names) < 2:
+        return
+    for index in range(ctx.budget(8, 80)):
+        count = rng.choice([2, 2, 3]) if len(names) >= 3 else 2
+        chosen = [rng.choice(by_name[n]) for n in rng.sample(names, count)]
+        style = rng.choice(["nested", "nested", "nested-dot", "direct", "nested-up"])
+        tmp = tempfile.mkdtemp(prefix="c11_nested_")
+        try:
+            top_lines = []
+            layout = []
+            for k, case in enumerate(chosen):
+                sub = "mol_%d" % k
+                os.makedirs(os.path.join(tmp, sub))
+                with open(os.path.join(tmp, sub, "polymer.itp"), "w") as handle:
+                    handle.write(case["res"]["text"])
+                if style == "direct":
+                    top_lines.append('#include "%s/polymer.itp"' % sub)
+                else:
+                    written = {"nested": "polymer.itp", "nested-dot": "./polymer.itp",
+                               "nested-up": "../%s/polymer.itp" % sub}[style]
+                    with open(os.path.join(tmp, sub, "molecule.itp"), "w") as handle:
+                        handle.write('; molecule %d\n#include "%s"\n' % (k, written))
+                    top_lines.append('#include "%s/molecule.itp"' % sub)
+                layout.append(sub)
+            top_lines += ["[ system ]", "verif", "[ molecules ]"]
+            counts = [rng.choice([1, 1, 2]) for _ in chosen]
+            for case, n in zip(chosen, counts):
+                top_lines.append("%s %d" % (case["res"]["captured"]["moltype"], n))
+            with open(os.path.join(tmp, "system.top"), "w") as handle:
+                handle.write("\n".join(top_lines) + "\n")
+            replay = dict(kind="nested", style=style, counts=counts, specs=[c["spec"] for c in chosen])
+            try:
+                top = Topology.from_gmx_topfile(os.path.join(tmp, "system.top"), "verif_nested")
+                err = None
+            except Exception as exc:  # pylint: disable=broad-except
+                err = "%s: %s" % (type(exc).__name__, str(exc)[:200])
+            what = "%d files written by gen_params, each as <dir>/polymer.itp, read through one .top (%s): %s" % (
+                len(chosen), style, [describe(c["spec"]) for c in chosen])
+            if err is not None:
+                report(ctx, "reread-refused", "the files gen_params wrote are refused by Topology.from_gmx_topfile when "
+                       "they are part of one system: %s; %s" % (err, what), replay)
+            else:
+                pos = 0
+                for case, n in zip(chosen, counts):
+                    alone = canon_block(case["res"]["top"]["block"])
+                    alone_graph = canon_graph(case["res"]["top"]["graph"]["nodes"], case["res"]["top"]["graph"]["edges"])
+                    for _ in range(n):
+                        meta = top.molecules[pos] if pos < len(top.molecules) else None
+                        pos += 1
+                        got = canon_block(c11_real.block_to_json(meta.molecule)) if meta is not None else None
+                        graph = None
+                        if meta is not None:
+                            gj = c11_real.res_graph_to_json(meta)
+                            graph = canon_graph(gj["nodes"], gj["edges"])
+                        if got != alone or graph != alone_graph or meta.mol_name != case["res"]["captured"]["moltype"]:
+                            report(ctx, "molecule-differs", "molecule %s read as part of one system differs from the "
+                                   "same file read alone (block equal: %s, residue graph equal: %s); %s"
+                                   % (case["res"]["captured"]["moltype"], got == alone, graph == alone_graph, what), replay)
+                            break
+                if pos != len(top.molecules):
+                    report(ctx, "molecule-differs", "the system holds %d molecules, [ molecules ] asks for %d; %s"
+                           % (len(top.molecules), pos, what), replay)
+            ctx.tally(nested_include=style)
+        finally:
+            shutil.rmtree(tmp, ignore_errors=True)
 
 
 # ------------------------------------------------------------------------------------------------ the lexer against the real one
@@ -877,10 +1020,18 @@ def run(ctx):
         specs.append(gen_case(ctx.rng, index, ctx.thorough))
     if FINDING_SHAPES:
         specs += finding_cases()
+    # process history: the same call a second time in this process (after all the others, some of which fail) — the
+    # oracle is applied to the LATER result as well
+    import random as _random
+    again = _random.Random("c11-again|%r" % (ctx.rng.getstate()[1][:4],))
+    pool = [s for s in specs if s.get("kind") in ("generated", "library")]
+    for spec in again.sample(pool, min(len(pool), ctx.budget(6, 60))):
+        specs.append(dict(copy.deepcopy(spec), repeat=True))
     cases = run_specs(ctx, specs)
     texts = [(c["res"]["captured"]["moltype"], c["res"]["text"]) for c in cases
              if c["res"].get("written") and c["res"]["captured"].get("moltype")]
     malformed_stream(ctx, texts[:200])
+    nested_include_stream(ctx, cases)
     lexer_stream(ctx, texts[:400])
     pending = ctx.extra.get("pending_findings")
     if pending:
@@ -898,7 +1049,11 @@ def replay(ctx, data):
                 inputs.append(item["input"])
     else:
         inputs.append(data.get("input") or data)
-    specs = [i for i in inputs if i.get("kind") not in ("malformed", "table", "lex")]
+    specs = [i for i in inputs if i.get("kind") not in ("malformed", "table", "lex", "nested")]
+    for item in inputs:
+        if item.get("kind") == "nested":
+            # the written files are regenerated from their specs; the stream picks among them again
+            nested_include_stream(ctx, run_specs(ctx, item["specs"]))
     run_specs(ctx, specs)
     for item in inputs:
         if item.get("kind") == "lex":
